@@ -170,7 +170,44 @@ func VerifC08Compact() {
 	for i := range keep2 {
 		keep2[i] = keep2[i] && keep[i]
 	}
+	// a reader that has already crossed compacted segments stays open while
+	// the next compaction replaces segments under it
+	var live *Reader
+	liveNext := 0
+	liveBuf := make([]byte, 28)
+	if vParam("livereader", 1) == 1 {
+		r, err := l.NewReader(0, true)
+		vAssert(err == nil, "NewReader succeeds on a compacted log")
+		live = r
+		j := vChoose(n) // survivors consumed before the next compaction
+		for liveNext < n && j > 0 {
+			if !keep[liveNext] {
+				liveNext++
+				continue
+			}
+			_, off, _, _, err := live.ReadMessage(vCtx(), liveBuf)
+			vAssert(err == nil, "long-lived reader: read before the next compaction succeeds")
+			vAssert(off == int64(liveNext), "long-lived reader: survivors in order before the next compaction")
+			liveNext++
+			j--
+		}
+	}
 	vAssert(l.Clean() == nil, "second Clean succeeds")
+	if live != nil {
+		for ; liveNext < n; liveNext++ {
+			if !keep2[liveNext] {
+				continue
+			}
+			m, off, _, _, err := live.ReadMessage(vCtx(), liveBuf)
+			vAssert(err == nil, "long-lived reader: read after the next compaction succeeds")
+			if err != nil {
+				break
+			}
+			vAssert(off == int64(liveNext), "long-lived reader: continues with the next survivor, none twice, none skipped")
+			vAssert(vBytesEq(m.Value(), model[liveNext].Value), "long-lived reader: value unchanged")
+		}
+		vCover("live-reader")
+	}
 	vCheckSurvivors(l, model, keep2, false)
 	vCover("done")
 }
